@@ -84,6 +84,8 @@ pub struct Obs {
     /// `events.len()` after every poll that returned Pending without any sink having answered Pending in it (the router
     /// is waiting for streams or for the registration channel only: nobody's sink holds its waker)
     pub rest_points: Vec<usize>,
+    /// per mock id: the stream script as given ('i' item, 'x' error item, 'p' pending), in the order it is consumed
+    pub scripts: BTreeMap<usize, Vec<char>>,
     pub line: String,
     pub annotated: Vec<String>,
     pub panicked: Option<String>,
@@ -113,8 +115,11 @@ pub fn run_scenario(events: &[&str]) -> Obs {
     let waker = wk.clone().into();
     let mut cx = Context::from_waker(&waker);
     let mut segs: Vec<String> = vec![];
-    let mut o = Obs { rest_points: vec![], line: String::new(), annotated: vec![], panicked: None, spun: false, done: false, events: vec![], n_clients: 0, n_servers: 0, last_pending: false, sleeping_for_good: false, last_any_child_pending: false, last_sink_pending: false, polled_after_close: false, closed: false, server_enq_at: vec![], last_poll_start: 0 };
+    let mut o = Obs { scripts: BTreeMap::new(), rest_points: vec![], line: String::new(), annotated: vec![], panicked: None, spun: false, done: false, events: vec![], n_clients: 0, n_servers: 0, last_pending: false, sleeping_for_good: false, last_any_child_pending: false, last_sink_pending: false, polled_after_close: false, closed: false, server_enq_at: vec![], last_poll_start: 0 };
     let mut first = true;
+    // every turn of the router's loop consumes a scripted answer or a registration: a poll that makes more child calls
+    // than a generous multiple of all there is to consume is spinning
+    let spin_limit = SPIN_LIMIT + 10 * events.iter().map(|e| e.matches(',').count() + 1).sum::<usize>();
     for ev in events {
         if o.done || o.panicked.is_some() { o.annotated.push(ev.split('@').next().unwrap().to_string()); continue; }
         if !ev.starts_with("poll") { o.annotated.push(ev.to_string()); }
@@ -125,6 +130,7 @@ pub fn run_scenario(events: &[&str]) -> Obs {
             let is_client = ev.starts_with("+c");
             let id = if is_client { o.n_clients } else { V + o.n_servers };
             if is_client { o.n_clients += 1 } else { o.n_servers += 1; o.server_enq_at.push(o.events.len()); }
+            o.scripts.insert(id, parse_stream(ts).iter().map(|a| match a { SAns::Item(_) => 'i', SAns::Err => 'x', _ => 'p' }).collect());
             let si = MockSink { id, kind: 'k', script: SinkScript::parse(ks), log: log.clone(), silent };
             let st = MockStream { id, kind: 't', script: parse_stream(ts), log: log.clone(), silent };
             let sock = if is_client { Socket::Client((Box::pin(si), Box::pin(st))) } else { Socket::Server((Box::pin(si), Box::pin(st))) };
@@ -141,7 +147,7 @@ pub fn run_scenario(events: &[&str]) -> Obs {
             wk.0.store(0, Ordering::SeqCst);
             let start = log.lock().unwrap_or_else(|e| e.into_inner()).events.len();
             o.last_poll_start = o.events.len();
-            log.lock().unwrap_or_else(|e| e.into_inner()).spin_guard = Some(start + SPIN_LIMIT);
+            log.lock().unwrap_or_else(|e| e.into_inner()).spin_guard = Some(start + spin_limit);
             let res = catch(|| topic.as_mut().poll(&mut cx));
             log.lock().unwrap_or_else(|e| e.into_inner()).spin_guard = None;
             let evs: Vec<Ev<Frame>> = log.lock().unwrap_or_else(|e| e.into_inner()).events[start..].to_vec();
@@ -174,7 +180,7 @@ pub fn run_scenario(events: &[&str]) -> Obs {
 
 /// property monitors on what the implementation did
 pub fn monitor(o: &Obs) -> Result<(), String> {
-    if o.spun { return Err(format!("C09: more than {SPIN_LIMIT} child calls inside one poll: the router spins instead of yielding")); }
+    if o.spun { return Err(format!("C09: more than {SPIN_LIMIT} + 10 per scripted answer child calls inside one poll: the router spins instead of yielding")); }
     if let Some(p) = &o.panicked { return Err(format!("C02/C04/C08/C09/C10/C11/C16: polling the request/reply router panicked: {p}")); }
     // ---- reconstruct the exchange
     let mut taken: Vec<(usize, Frame)> = vec![];          // requests yielded by requestor streams
@@ -419,6 +425,38 @@ pub fn monitor(o: &Obs) -> Result<(), String> {
             }
         }
     }
+    // … nor with anything left unread that a stream has ready while a replier is bound: with a replier bound and no sink
+    // in the way the router's loop only stops when every stream it holds has answered Pending (its waker is there)
+    // (c09_reqrep_wake_driven_executor_unblocks: whatever is ready is taken before the router parks)
+    for end in &o.rest_points {
+        let mut consumed: BTreeMap<usize, usize> = BTreeMap::new();
+        let mut over: BTreeSet<usize> = BTreeSet::new();     // streams that ended or failed, sockets dropped, sinks that failed
+        let mut seen: BTreeSet<usize> = BTreeSet::new();
+        let mut parked: BTreeSet<usize> = BTreeSet::new();   // streams whose last answer was Pending: they hold the router's waker
+        for e in &o.events[..*end] {
+            match e {
+                Ev::StreamPending(i) => { *consumed.entry(*i).or_insert(0) += 1; seen.insert(*i); parked.insert(*i); }
+                Ev::StreamItem(i, _) => { *consumed.entry(*i).or_insert(0) += 1; seen.insert(*i); parked.remove(i); }
+                Ev::StreamErr(i) => { *consumed.entry(*i).or_insert(0) += 1; seen.insert(*i); parked.remove(i); if *i >= V { over.insert(*i); } }
+                Ev::StreamEnd(i) => { over.insert(*i); }
+                Ev::Dropped(_, i) => { over.insert(*i); }
+                Ev::SinkSend(i, _, false) => { over.insert(*i); }
+                Ev::SinkReady(i, A::Err) | Ev::SinkFlush(i, A::Err) | Ev::SinkClose(i, A::Err) => { if *i >= V { over.insert(*i); } }
+                _ => {}
+            }
+        }
+        let bound = (0..o.n_servers).map(|n| V + n).find(|id| seen.contains(id) && !over.contains(id));
+        if let Some(b) = bound {
+            for (id, script) in &o.scripts {
+                if !seen.contains(id) || over.contains(id) || parked.contains(id) { continue; }
+                if *id >= V && *id != b { continue; }
+                let k = consumed.get(id).copied().unwrap_or(0);
+                if matches!(script.get(k), Some('i') | Some('x')) {
+                    return Err(format!("C02/C09/C10: the router returned Pending, blocked on no sink, with replier v{} bound, and left what {} has ready unread (nothing will wake it for that)", b - V, who(*id, false)));
+                }
+            }
+        }
+    }
     // C16: … and when it finishes, every reply it had handed to a requestor's sink has been flushed (c16_reqrep_done_flushed)
     if o.done {
         let mut unflushed: BTreeMap<usize, usize> = BTreeMap::new();
@@ -581,6 +619,15 @@ pub fn run(cfg: &Cfg) {
             cases.push(format!("rr +c_/{},p +s_/{},p poll poll poll poll", reqs.join(","), reps.join(",")));
             cases.push(format!("rr +c_/p,p +cf=PR/p,p +s_/{},p poll poll poll poll", reps2.join(",")));
             cases.push(format!("rr +s_/{},p +c_/{},p poll poll close poll poll", reps.join(","), reqs.join(",")));
+        }
+        // very many requests handed to a replier that answers none of them and then goes away: whatever the router
+        // keeps per topic (counters, allowances) must not outlive the binding — the next replier is handed the next request
+        for n in [1023usize, 1024, 1025, 2100] {
+            let reqs: Vec<String> = (1..=n).map(|i| format!("i:m{i}")).collect();
+            // (the replier's stream is polled once per request handed over: it stays quiet throughout, then ends / its sink fails)
+            let quiet = vec!["p"; n + 3].join(",");
+            cases.push(format!("rr +s_/{quiet} +c_/{},p,p,p,p poll poll poll poll +s_/p,p,p,p +c_/i:m7000,p,p poll poll poll", reqs.join(",")));
+            cases.push(format!("rr +sf=RE/{quiet},p,p,p,p +c_/{},p,p,p,p poll poll poll poll +s_/p,p,p,p +c_/i:m7000,p,p poll poll poll", reqs.join(",")));
         }
         let mut r = Rng::new(cfg.seed, "reqrep");
         for _ in 0..cfg.n(4000, 200_000) {
